@@ -125,35 +125,8 @@ void harness(void)
 
 #ifdef U_ISVALID
 /* contracts of the two callees (proved in lookup.c) */
-static spif_int32_t find_short_option(char opt)
-__CPROVER_requires(OPTTAB_INV && OPT_HELP_INV && OPT_BAD_ROOM)
-__CPROVER_requires(opt != 0)
-__CPROVER_assigns(spifopt_settings.bad_opts, vg_help_calls)
-__CPROVER_ensures(__CPROVER_return_value == -1 ||
-                  (0 <= __CPROVER_return_value && __CPROVER_return_value < OPT_N &&
-                   OPT_TAB[__CPROVER_return_value].short_opt == opt && opt != 0 &&
-                   (!((long) vg_k < __CPROVER_return_value) || OPT_TAB[vg_k].short_opt != opt) &&
-                   OPT_NO_BAD(__CPROVER_old(spifopt_settings.bad_opts), __CPROVER_old(vg_help_calls))))
-__CPROVER_ensures(__CPROVER_return_value != -1 ||
-                  ((!((long) vg_k < OPT_N) || OPT_TAB[vg_k].short_opt != opt || opt == 0) &&
-                   OPT_ONE_BAD(__CPROVER_old(spifopt_settings.bad_opts), __CPROVER_old(vg_help_calls))))
-;
-#define LONG_MATCH_K  (vg_cmp == 0 && vg_n2 <= vg_n1 && (opt[vg_n2] == '=' || opt[vg_n2] == 0))
-static spif_int32_t find_long_option(spif_charptr_t opt)
-__CPROVER_requires(OPTTAB_INV && OPT_HELP_INV && OPT_BAD_ROOM)
-__CPROVER_requires(VOPT_STR_OK(opt, vg_n1) && vg_p1 == (const char *) opt)
-__CPROVER_requires(!((long) vg_k < OPT_N) || (VOPT_STR_OK(vg_p2, vg_n2) && vg_p2 == (const char *) OPT_TAB[vg_k].long_opt))
-__CPROVER_requires((long) vg_k < OPT_N || vg_p2 == NULL)
-__CPROVER_assigns(spifopt_settings.bad_opts, vg_help_calls, vg_lastp, vg_lastn)
-__CPROVER_ensures(__CPROVER_return_value == -1 ||
-                  (0 <= __CPROVER_return_value && __CPROVER_return_value < OPT_N &&
-                   (!((long) vg_k < __CPROVER_return_value) || !LONG_MATCH_K) &&
-                   (!((long) vg_k == __CPROVER_return_value) || LONG_MATCH_K) &&
-                   OPT_NO_BAD(__CPROVER_old(spifopt_settings.bad_opts), __CPROVER_old(vg_help_calls))))
-__CPROVER_ensures(__CPROVER_return_value != -1 ||
-                  ((!((long) vg_k < OPT_N) || !LONG_MATCH_K) &&
-                   OPT_ONE_BAD(__CPROVER_old(spifopt_settings.bad_opts), __CPROVER_old(vg_help_calls))))
-;
+static spif_int32_t find_short_option(char opt) CONTRACT_find_short_option(opt != 0);
+static spif_int32_t find_long_option(spif_charptr_t opt) CONTRACT_find_long_option;
 /* the word: vg_n3 characters; registered string 1 is its tail after "--" (length vg_n1 = vg_n3 - 2) */
 #define W_LONG_MATCH_K (vg_cmp == 0 && vg_n2 <= vg_n1 && (opt[2 + vg_n2] == '=' || opt[2 + vg_n2] == 0))
 static spif_bool_t is_valid_option(spif_charptr_t opt)
